@@ -428,6 +428,10 @@ trait Sut: Clone + PartialEq + Send + Sync + 'static {
     fn gen_mapped(&self, _g: &(dyn Fn(&Exp) -> Exp + Sync), _keep: &(dyn Fn(&Exp) -> bool + Sync)) -> Vec<(&'static str, Self, u8)> {
         vec![]
     }
+    /// every single-term constructor of the type applied to (x^e, c), c possibly zero: (api name, result)
+    fn single_term_ctors(_e: &Exp, _c: &Self::C) -> Vec<(&'static str, Self)> {
+        vec![]
+    }
     fn o_is_zero(&self) -> bool;
     fn o_nterms(&self) -> Option<usize> {
         None
@@ -524,6 +528,13 @@ where
     }
     fn build(terms: &[(Exp, R)]) -> Self {
         terms.iter().map(|(e, c)| (X::from_exps(e), c.clone())).collect()
+    }
+    fn single_term_ctors(e: &Exp, c: &R) -> Vec<(&'static str, Self)> {
+        let mut v = vec![("PolyBase::from((x, c))", PolyBase::from((X::from_exps(e), c.clone()))), ("Lc::from((x, c)) -> PolyBase", PolyBase::from(Lc::from((X::from_exps(e), c.clone()))))];
+        if e.iter().all(|&d| d == 0) {
+            v.push(("PolyBase::from_const(c)", PolyBase::from_const(c.clone())));
+        }
+        v
     }
     fn dump(&self) -> Vec<(Exp, R, bool)> {
         self.iter().map(|(x, c)| (x.exps(), c.clone(), x.stored_ok())).collect()
@@ -641,6 +652,9 @@ where
     }
     fn build(terms: &[(Exp, R)]) -> Self {
         terms.iter().map(|(e, c)| (Free(e[0] as i32), c.clone())).collect()
+    }
+    fn single_term_ctors(e: &Exp, c: &R) -> Vec<(&'static str, Self)> {
+        vec![("Lc::from((x, c))", Lc::from((Free(e[0] as i32), c.clone())))]
     }
     fn dump(&self) -> Vec<(Exp, R, bool)> {
         self.iter().map(|(x, c)| (vec![x.0 as i64], c.clone(), true)).collect()
@@ -1155,6 +1169,30 @@ where
                 Err(p) => px.fail("map_gens/filter_gens", &args(), format!("panicked: {p}")),
             }
         });
+    }
+    // ---- single-term constructors, the zero coefficient included -----------------------------------
+    // (`from((x, c))`, `from_const(c)`: a zero coefficient must give the zero value with no stored term;
+    //  seed `C16-single-term-from-keeps-zero`)
+    {
+        let mut cs: Vec<KRef<P>> = coeffs.clone();
+        cs.push(KRef::<P>::zero());
+        for e in &full {
+            for k in &cs {
+                let exp = RP::<KRef<P>>::from_terms([(e.clone(), k.clone())]);
+                let args = || format!("x^{e:?} * {}", k.show());
+                match catch(|| P::single_term_ctors(e, &P::C::from_ref(k))) {
+                    Ok(list) => {
+                        for (api, got) in list {
+                            tick(C::Ev, 1);
+                            if let Some(v) = px.light("construct", api, &args, Ok(got), &exp) {
+                                px.full("construct", &args, &v, &exp);
+                            }
+                        }
+                    }
+                    Err(p) => px.fail("construct", &args(), format!("single-term constructor panicked: {p}")),
+                }
+            }
+        }
     }
     // ---- U + S ---------------------------------------------------------------------------------
     let n_a = count_polys(full.len(), coeffs.len(), t_max);
